@@ -127,6 +127,28 @@ impl BoundSet {
         true
     }
 
+    /// The lowest version satisfying this set, if any.
+    fn min_version(&self) -> Option<Version> {
+        use Bound::*;
+        use Predicate::*;
+
+        let lowest_pre = |mut v: Version| {
+            v.pre_release.push(Identifier::Numeric(0));
+            v
+        };
+        let candidates = match self.lower.as_ref() {
+            Lower(Including(v)) => vec![v.clone()],
+            Lower(Excluding(v)) if v.is_prerelease() => vec![lowest_pre(v.clone())],
+            Lower(Excluding(v)) => {
+                let mut next = v.clone();
+                next.patch += 1;
+                vec![lowest_pre(next.clone()), next]
+            }
+            _ => vec![lowest_pre((0, 0, 0).into()), (0, 0, 0).into()],
+        };
+        candidates.into_iter().find(|v| self.satisfies(v))
+    }
+
     fn allows_all(&self, other: &BoundSet) -> bool {
         self.lower <= other.lower && other.upper <= self.upper
     }
@@ -481,38 +503,7 @@ impl Range {
     Return the lowest [Version] that can possibly match the given range.
     */
     pub fn min_version(&self) -> Option<Version> {
-        if let Some(min_bound) = self.0.iter().map(|range| &range.lower).min() {
-            let min_bound = min_bound.as_ref();
-            match min_bound {
-                Bound::Lower(pred) => match pred {
-                    Predicate::Including(v) => Some(v.clone()),
-                    Predicate::Excluding(v) => {
-                        let mut v = v.clone();
-                        if v.is_prerelease() {
-                            v.pre_release.push(Identifier::Numeric(0))
-                        } else {
-                            v.patch += 1;
-                        }
-                        Some(v)
-                    }
-                    Predicate::Unbounded => {
-                        let mut zero = Version::from((0, 0, 0));
-                        if self.satisfies(&zero) {
-                            return Some(zero);
-                        }
-
-                        zero.pre_release.push(Identifier::Numeric(0));
-                        if self.satisfies(&zero) {
-                            return Some(zero);
-                        }
-                        None
-                    }
-                },
-                Bound::Upper(_) => None,
-            }
-        } else {
-            None
-        }
+        self.0.iter().filter_map(BoundSet::min_version).min()
     }
 }
 
